@@ -4,7 +4,9 @@ import PB.Drv.Loop
 Driver for C01: acceptor for recorded histories of the module manager.
 
 `scn <n> <mgmt> <deps> <nil> …` starts a scenario; every further line is a recorded fact
-(`call`/`ret`/`beg`/`end`/`en`/`dis`/`latereg`/`obs`/`fin`) that is replayed through `PB.Modules.step`.
+(`call`/`ret`/`beg`/`end`/`en`/`dis`/`setg`/`glob`/`latereg`/`obs`/`fin`) that is replayed through `PB.Modules.step`.
+The outcome of a finished routine (`end … ok|err|panic`) reaches the model through the regenerated
+`ctrlFailureSeen` (what the manager is told, given what the routine did).
 Output per line: `ok`, `reject <reason> …`, or `bad-op` for anything that is not a well-formed line.
 
 Two kinds of model steps are not visible in a history and are inserted here:
@@ -36,6 +38,19 @@ def parseOk : String → Option Bool
   | "ok" => some true
   | "err" => some false
   | "panic" => some false
+  | _ => none
+
+/-- What the manager is told about a routine that returned nil / returned an error / panicked. -/
+def parseOutcome : String → Option Bool
+  | "ok" => some (!PB.Gen.Lifecycle.ctrlFailureSeen false false)
+  | "err" => some (!PB.Gen.Lifecycle.ctrlFailureSeen true false)
+  | "panic" => some (!PB.Gen.Lifecycle.ctrlFailureSeen false true)
+  | _ => none
+
+def parseGlob : String → Option Glob
+  | "prep" => some .prep
+  | "shutdown" => some .shutdown
+  | "cmd" => some .cmd
   | _ => none
 
 def parseNatList (s : String) : Option (List Nat) :=
@@ -102,7 +117,7 @@ def attempt (nilcb : Nat → Kind → Bool) : Nat → St → Ev → Option St
         | none => none
 
 def showPc : Pc → String
-  | .idle => "idle" | .prep => "prep" | .startS => "startS" | .stopM => "stopM" | .startM => "startM" | .stopX => "stopX"
+  | .idle => "idle" | .glob g => s!"glob-{repr g}" | .prep => "prep" | .startS => "startS" | .stopM => "stopM" | .startM => "startM" | .stopX => "stopX"
   | .done a ok => s!"done-{repr a}-{ok}"
 
 def describe (s : St) : String :=
@@ -144,8 +159,14 @@ def handleEv (d : D) (w : List String) : D × String :=
   | ["beg", k, m] => match parseKind k, m.toNat? with
     | some kk, some m => event d (.beg kk m) s!"beg-{k}"
     | _, _ => (d, "bad-op")
-  | ["end", k, m, r] => match parseKind k, m.toNat?, parseOk r with
+  | ["end", k, m, r] => match parseKind k, m.toNat?, parseOutcome r with
     | some kk, some m, some ok => event d (.fin kk m ok) s!"end-{k}"
+    | _, _, _ => (d, "bad-op")
+  | ["setg", g, i] => match parseGlob g, i.toNat? with
+    | some gg, some i => event d (.setGlob gg i) s!"setg-{g}"
+    | _, _ => (d, "bad-op")
+  | ["glob", g, i, r] => match parseGlob g, i.toNat?, parseOk r with
+    | some gg, some i, some ok => if r = "panic" then (d, "bad-op") else event d (.glob gg i ok) s!"glob-{g}"
     | _, _, _ => (d, "bad-op")
   | [op, m, c] =>
     if op = "en" ∨ op = "dis" then
